@@ -60,7 +60,8 @@ func NewController(addr api.WarehouseLocation) (warehouse.BlobstoreController, e
 	}
 	absPth, err := filepath.Abs(filepath.Join(u.Host, u.Path))
 	if err != nil {
-		panic(err)
+		// A relative address cannot be resolved when the working directory is gone.
+		return whCtrl, Errorf(rio.ErrWarehouseUnavailable, "cannot resolve warehouse addr %q: %s", addr, err)
 	}
 	whCtrl.basePath = fs.MustAbsolutePath(absPth)
 
